@@ -9,9 +9,9 @@ PROPS = {
     "C01": {"profiles": ["struct-flat", "member-instrs", "shape-change"], "n_quick": 5400},
     "C02": {"profiles": ["enum", "multi-counterpart", "shape-change", "enum-members"], "n_quick": 6000},
     "C03": {"profiles": ["tree", "parents"], "n_quick": 5400},
-    "C04": {"profiles": ["traits", "generics"], "n_quick": 4500},
+    "C04": {"profiles": ["traits", "generics", "trait-repeat"], "n_quick": 4500},
     "C05": {"profiles": ["member-instrs", "multi-counterpart", "enum-members"], "n_quick": 5400},
-    "C06": {"profiles": ["multi-counterpart", "tree", "enum", "parents"], "n_quick": 6000},
+    "C06": {"profiles": ["multi-counterpart", "tree", "enum", "parents", "repeat"], "n_quick": 6000},
     "C07": {"profiles": ["struct-flat", "tree", "enum", "shape-change"], "n_quick": 5400},
     "C08": {"profiles": ["trait-params", "tree", "trait-repeat"], "n_quick": 5400},
     "C09": {"profiles": ["enum-prim"], "n_quick": 3600},
@@ -292,7 +292,7 @@ def project_item(it, keep):
 def oracle_c06(cases, results, seed, thorough):
     fails = []
     items = []
-    for k, prof in enumerate(["multi-counterpart", "tree", "enum", "parents"]):
+    for k, prof in enumerate(["multi-counterpart", "tree", "enum", "parents", "repeat"]):
         items += gen.gen_items(prof, seed * 1000 + 900 + k, 200 if not thorough else 2500)
     items = [it for it in items if len(it.meta.get("cparts", [])) >= 2 and not any(c.startswith("(") for c in it.meta["cparts"])]
     full = [(it.meta["id"], gen.render(it)) for it in items]
@@ -394,7 +394,7 @@ def expected_impls(it):
 def oracle_c04(cases, seed, thorough):
     fails = []
     items = []
-    for k, prof in enumerate(["traits", "generics", "struct-flat", "enum"]):
+    for k, prof in enumerate(["traits", "generics", "struct-flat", "enum", "trait-repeat"]):
         items += gen.gen_items(prof, seed * 1000 + 600 + k, 200 if not thorough else 2500)
     srcs = [(it.meta["id"], gen.render(it)) for it in items]
     outs, an = L.analyze("s1", srcs)
@@ -1107,6 +1107,50 @@ def oracle_c14_members(cases, seed, thorough):
     return fails, n
 
 
+ATTR_TOKENS = {
+    "attribute(inline)": "p# [ iinline ]", "attribute(allow(unused))": "p# [ iallow ( iunused ) ]", "attribute(doc = \"x y\")": "p# [ idoc p= l\"x%20y\" ]",
+    "impl_attribute(cfg(test))": "p# [ icfg ( itest ) ]", "impl_attribute(allow(dead_code))": "p# [ iallow ( idead_code ) ]",
+    "inner_attribute(allow(unused_variables))": "p# p! [ iallow ( iunused_variables ) ]", "inner_attribute(rustfmt::skip)": "p# p! [ irustfmt j: p: iskip ]",
+}
+
+
+def oracle_c08_attrs(seed, thorough):
+    """every impl an instruction produces carries the instruction's `attribute(..)` on the fn, `impl_attribute(..)` on the
+    impl and `inner_attribute(..)` inside the fn body: the number of occurrences of each attribute in the real output is
+    the number of impls requested by the instructions that carry it"""
+    fails = []
+    items = []
+    for k, prof in enumerate(["trait-params", "parents", "tree"]):
+        items += gen.gen_items(prof, seed * 1000 + 480 + k, 300 if not thorough else 3000)
+    srcs = []
+    expect = {}
+    for it in items:
+        exp = collections.Counter()
+        for a in it.attrs:
+            if not (a.tag and a.tag[0] == "trait") or "|" not in (a.args or ""):
+                continue
+            ks, _ = gen.kinds_of(a.name)
+            params = a.args.split("|", 1)[1]
+            for text, tok in ATTR_TOKENS.items():
+                if text in params:
+                    exp[tok] += len(ks)
+        if exp:
+            expect[it.meta["id"]] = exp
+            srcs.append((it.meta["id"], gen.render(it)))
+    outs = expand("s1", srcs)
+    n = 0
+    for i, s in srcs:
+        if outs[i][0] != "OK":
+            continue
+        n += 1
+        for tok, cnt in expect[i].items():
+            got = outs[i][1].count(tok)
+            if got != cnt:
+                fails.append({"source": s, "what": f"attribute `{tok}` appears {got} time(s) in the expansion, the instructions that carry it request {cnt} impl(s)"})
+                break
+    return fails, n
+
+
 RT_FAMILY = {"C01": "flat", "C07": "flat7", "C08": "flat", "C02": "enum", "C03": "tree", "C09": "prim", "C17": "wf", "C10": "subst"}
 
 
@@ -1128,6 +1172,16 @@ def run_oracle(prop, cases, results, seed, thorough, disagreements):
         if prop in ("C01", "C02", "C03", "C08", "C09"):
             out["name"] = "runtime tie: compile-and-run of designed programs vs documented meaning"
             out["evaluated"] = out["runtime_tie"]["conversions_compared"]
+            if prop == "C08":
+                out["name"] += " + attribute count: every impl of an instruction carries its attribute / impl_attribute / inner_attribute"
+                fo, no = oracle_c08_attrs(seed, thorough)
+                out["failures"] += fo
+                out["evaluated"] += no
+            if prop == "C09":
+                out["name"] += " + metamorphic: swapping a default with a dedicated #[literal] / #[pattern] leaves the real expansion unchanged"
+                fo, no = oracle_c05_order(seed + 9, thorough, profiles=("enum-prim",))
+                out["failures"] += fo
+                out["evaluated"] += no
             if prop == "C02":
                 out["name"] += " + metamorphic: swapping a default with a dedicated variant / payload instruction of the same name leaves the real expansion unchanged"
                 fo, no = oracle_c05_order(seed + 2, thorough, profiles=("enum-members", "enum", "multi-counterpart"))
